@@ -118,7 +118,6 @@ type simDatastore struct {
 	closed bool
 }
 
-
 func (d *simDatastore) m() map[string][]byte {
 	m := d.c.data[d.path]
 	if m == nil {
